@@ -53,6 +53,12 @@ def resolve(fn, n):
     return n
 
 
+# accessors that only read (their definitions are part of the library and are analysed under C09 / C18)
+READ_ONLY_CALLS = {"aws_linked_list_front", "aws_linked_list_back", "aws_linked_list_begin", "aws_linked_list_end", "aws_linked_list_rbegin", "aws_linked_list_rend", "aws_linked_list_empty",
+                   "aws_linked_list_next", "aws_linked_list_prev", "aws_linked_hash_table_get_iteration_list", "aws_linked_hash_table_get_element_count", "aws_array_list_length",
+                   "aws_string_c_str", "aws_byte_cursor_from_c_str", "aws_byte_cursor_from_buf", "aws_hash_table_get_entry_count", "aws_priority_queue_size"}
+
+
 def origin(fn, n, use=None):
     """n seen through casts and through a local that has exactly one definition - its declaration's initialiser, a call
     included (`const size_t size = get_size(x); if (i >= size)`).  With `use` (an event): only when no other call lies
@@ -92,7 +98,7 @@ def origin(fn, n, use=None):
         if use is not None and init is not None and init["k"] == "call":
             dom = dominators(fn)
             between = [e for e in fn.all_events() if e.kind == "call" and e.node is not init and ev_dominates(fn, decls[0][0], e, dom) and ev_dominates(fn, e, use, dom)
-                       and not (e.node.get("callee") or "").startswith(("aws_fatal_assert", "__builtin_expect"))]
+                       and not (e.node.get("callee") or "").startswith(("aws_fatal_assert", "__builtin_expect")) and (e.node.get("callee") or "") not in READ_ONLY_CALLS]
             if between:
                 return n
         n = init
